@@ -131,6 +131,15 @@ func c08Transcripts() []c08Transcript {
 		t.msgs = append(t.msgs, errMsg("a", "failed while running signal ID record: late", false, false, "a"))
 		addDone(t, b)
 	}
+	{ // step-fatal errors that name a run nobody is waiting for: one that never existed, one that already finished
+		t := mk("v3-errors-for-absent-runs", 3)
+		a, b := ex("a", "echo", nil), ex("b", "echo", map[string]any{"payload": "p"})
+		t.groups = [][]rig.ExecSpec{{a, b}}
+		t.msgs = append(t.msgs, errMsg("ghost", "step failed", true, false, "a"))
+		addDone(t, a)
+		t.msgs = append(t.msgs, errMsg("a", "step failed (late duplicate)", true, false, "b"))
+		addDone(t, b)
+	}
 	{ // legacy v1: two serial runs, unwrapped messages
 		t := mk("v1-two-serial", 1)
 		a, b := ex("a", "echo", nil), ex("b", "echo2", map[string]any{"payload": 1.5})
@@ -235,6 +244,12 @@ func c08Replay(t *c08Transcript, f c08Fault, s2cMode rig.Mode, chunkSeed uint64)
 				return
 			}
 			if _, err := s2c.Write(m.bytes); err != nil {
+				return
+			}
+			if f.kind == rig.FaultFlip && f.at < m.end {
+				// the corrupted message is the last thing this server says: what a flipped byte makes of the
+				// framing of later messages (and of the requests they are gated on) is not modelled
+				_ = s2c.CloseWrite()
 				return
 			}
 		}
@@ -343,6 +358,11 @@ func c08Judge(c *wk.Ctx, t *c08Transcript, f c08Fault, res *c08Outcome, wit map[
 	// can detect; only a tail of 0xff bytes (never a valid item head, never valid UTF-8) makes "not
 	// intact => must fail" decidable. Other tails are judged for panics and hangs only.
 	decidable := f.kind != rig.FaultGarbage || (len(f.garbage) >= 32 && f.garbage[0] == 0xff && f.garbage[len(f.garbage)-1] == 0xff)
+	if f.kind == rig.FaultFlip {
+		// a flipped byte may turn one valid message into another valid one (e.g. another run ID): which results are
+		// delivered is not decidable - only panics, hangs and return counts are judged
+		decidable = false
+	}
 	helloOK := intact(t.msgs[0].end) && t.version != 0 && strings.HasPrefix(t.name, "v")
 	if res.schemaOK && !helloOK && (decidable || intact(t.msgs[0].end)) {
 		c.Violation("C08:readschema-fabricated", fmt.Sprintf("ReadSchema succeeded although the hello message %s", map[bool]string{true: "did not arrive intact", false: "must be refused (" + t.name + ")"}[!intact(t.msgs[0].end)]), wit)
@@ -368,6 +388,9 @@ func c08Judge(c *wk.Ctx, t *c08Transcript, f c08Fault, res *c08Outcome, wit map[
 		}
 		c.Count("executes_succeeded")
 		w := map[string]any{"fault": wit, "run": e.Spec.RunID, "work_done_ends_at": end, "result": fmt.Sprintf("%v %v", e.Result.OutputID, cmpx.CanonLoose(e.Result.OutputData))}
+		if f.kind == rig.FaultFlip {
+			continue
+		}
 		if end < 0 || t.expectID[e.Spec.RunID] == "" {
 			c.Violation("C08:fabricated-success:no-work-done-in-transcript", fmt.Sprintf("Execute(%s) reports success but the server never sent a work-done for it", e.Spec.RunID), w)
 			continue
@@ -387,7 +410,7 @@ func c08Judge(c *wk.Ctx, t *c08Transcript, f c08Fault, res *c08Outcome, wit map[
 }
 
 func runC08(c *wk.Ctx) {
-	c.Meta("rule", "server transcripts (v3: one run; serial ok/fail/ok; 3 concurrent with emitted signals, non-fatal errors and out-of-order results; server-fatal error midway; trailing error then another run. v1: two serial runs. hellos with unsupported versions and with schemas that do not unserialize) are replayed by a fake server whose messages are released when the client's matching request has arrived. Faults: the server->client stream is cut at byte offset k with {EOF, read error, garbage tail then EOF} for EVERY k of the runtime part and every k (thorough) / every 5th k plus message boundaries +-1 (quick) of the hello; the client->server write side fails independently from write #j on. Transports buffered and chunked. Oracle: recovered/fatal panics; quiescence monitor (a call that never returns after the faulty stream was delivered); an Execute may only report success if its work-done ended at or before k, and then with exactly the transcript's result; ReadSchema likewise. non-trivial = cut strictly inside the stream or a write fault; distinct = hash(transcript, fault, transport)")
+	c.Meta("rule", "server transcripts (v3: one run; serial ok/fail/ok; 3 concurrent with emitted signals, non-fatal errors and out-of-order results; server-fatal error midway; trailing error then another run. v1: two serial runs. hellos with unsupported versions and with schemas that do not unserialize) are replayed by a fake server whose messages are released when the client's matching request has arrived. Faults: the server->client stream is cut at byte offset k with {EOF, read error, garbage tail then EOF} for EVERY k of the runtime part and every k (thorough) / every 5th k plus message boundaries +-1 (quick) of the hello; the client->server write side fails independently from write #j on; a single byte of one runtime message is flipped (5 masks), the rest of that message is delivered and the stream then ends - only panics, hangs and return counts are judged for these. Transports buffered and chunked. Oracle: recovered/fatal panics; quiescence monitor (a call that never returns after the faulty stream was delivered); an Execute may only report success if its work-done ended at or before k, and then with exactly the transcript's result; ReadSchema likewise. non-trivial = cut strictly inside the stream or a write fault; distinct = hash(transcript, fault, transport)")
 	c.Meta("assumptions", []string{"in-payload bit corruption is undetectable without a checksum and is not demanded; the garbage fault replaces the rest of the stream",
 		"garbage tails start with bytes that are not a complete valid runtime message"})
 	c.Floor("replays", 500)
@@ -432,6 +455,17 @@ func runC08(c *wk.Ctx) {
 					f.garbage = garb[int(k)%len(garb)]
 				}
 				jobs = append(jobs, job{ti, f, "cut"})
+			}
+		}
+		// one flipped byte in the runtime part (the stream then continues to its end)
+		if strings.HasPrefix(t.name, "v") {
+			for k := helloEnd; k < total; k++ {
+				for mi, mask := range []byte{0x01, 0x02, 0x20, 0x80, 0xff} {
+					if c.Quick() && (int(k)+mi)%3 != 0 {
+						continue
+					}
+					jobs = append(jobs, job{ti, c08Fault{kind: rig.FaultFlip, at: k, failWrites: -1, garbage: []byte{mask}}, "byte-flip"})
+				}
 			}
 		}
 		// write side failing from write #j (with and without a simultaneous read fault at a boundary)
